@@ -16,7 +16,7 @@ TECHNIQUE = ('bounded exhaustive enumeration of command lists (every list of len
              'streams, exit 1, exit 3, death by signal, missing executable, non-executable file) and of task names, executed with real '
              'subprocesses by the real RunTask through the real Scheduler; files and environment compared with a reference interpreter '
              'of the list')
-RULE = ('every command list of length 0-3 over {ok, exit 1, exit 3, killed by SIGKILL, killed by SIGTERM, missing executable, '
+RULE = ('every command list of length 0-3 (thorough 0-4) over {ok, exit 1, exit 3, killed by SIGKILL, killed by SIGTERM, missing executable, '
         'non-executable file} (each ok command writes oK to stdout, eK to stderr and touches marker K in the task directory); task names '
         '{t, "a b", e-acute, "a/b", ".", "..", "x\\0y", ""}; pairs of tasks with different names sharing one output root; each task is run by '
         'Scheduler.schedule() with one worker under a watchdog. Oracle: DONE iff every command ran and exited 0; nothing runs after the '
@@ -102,7 +102,7 @@ def job_lists(first):
     with open(os.path.join(scratch, 'not-executable'), 'w', encoding='utf-8') as fil:
         fil.write('#!/bin/sh\nexit 0\n')
     try:
-        lists = [()] if first is None else [(first,) + rest for num in (1, 2, 3) for rest in itertools.product(KINDS, repeat=num - 1)]
+        lists = [()] if first is None else [(first,) + rest for num in ((1, 2, 3, 4) if TIER[0] == 'thorough' else (1, 2, 3)) for rest in itertools.product(KINDS, repeat=num - 1)]
         for kinds in lists:
             root = tempfile.mkdtemp(prefix='run_', dir=scratch)
             clis = [command(k, pos, scratch) for pos, k in enumerate(kinds)]
@@ -218,7 +218,11 @@ def _call(job):
     return job[0](job[1])
 
 
+TIER = ['quick']
+
+
 def run(tier, seed):
+    TIER[0] = tier
     jobs = [(job_lists, None)] + [(job_lists, k) for k in KINDS] + [(job_names, None)]
     return pool.pmap(_call, jobs, seed)
 
